@@ -6,6 +6,7 @@ Require Import String.
 Require Import List NArith Bool PeanoNat Lia ZifyBool ZifyN.
 Require Import KV.Parser.Utf8 KV.Parser.Unicode KV.Parser.Keywords KV.Parser.Scanners KV.Parser.Grammar KV.Parser.Run.
 Require Import KV.Parser.Utf8Proofs KV.Parser.ScannerProofs KV.Parser.HelperProofs KV.Parser.GrammarProofs KV.Parser.RoundTrip KV.Parser.RoundTrip2 KV.Parser.RoundTrip3.
+Require KV.Parser.Lex KV.Parser.StmtRT KV.Parser.FilterRT KV.Parser.FilterRT2 KV.Parser.SelectRT KV.Parser.GroupRT KV.Parser.TopRT KV.Parser.ExamplesRT.
 Import ListNotations.
 Open Scope N_scope.
 
@@ -213,13 +214,106 @@ Theorem C16_roundtrip_select :
 Proof. exact select_roundtrip. Qed.
 Print Assumptions C16_roundtrip_select.
 
-(* C16_roundtrip_partial.  The full statement of the design,
-     forall ast layout, wf ast -> parse (print layout ast) = Ok (ast, "")
-   is proved only for the one-triple family above.  NOT proved: `;` / `,` lists, several statements and the optional
-   `.`, FILTER / BIND / VALUES / GRAPH / UNION / sub-select, projections and solution modifiers, the update forms; at
-   token level exponent forms of numbers, literals with language tag / datatype and long strings.  Those are decided
-   on generated trees under ~10 layouts by the tree stream of checks/c16.py (implementation vs Spec tree vs this
-   model) and by the exhaustive follower stream, not by a theorem. *)
+(* ---- (3') the round trip over layout-annotated syntax trees ----------------------------------------- *)
+(* Lex.v ... TopRT.v.  A concrete syntax tree (CST) is the source tree plus, at every token, the layout printed before it
+   (`L`: a list of whitespace characters and `#` comments) and the letter case of every keyword; terms are structured
+   (`Term`: the token classes of (2) plus `true` / `false`).  `pr_*` is the printer - a total function on CSTs -, `tr_*`
+   forgets the annotations and gives the source tree (the parser's own tree type), `wf_* cst following` is a BOOLEAN
+   well-formedness predicate relative to the text that follows (token characters in range, each token stopped by what
+   follows it, the parser's negative look-aheads: the next text is not a keyword / operator that would continue the
+   construct), `sz_*` bounds the recursion fuel.  ExamplesRT.v evaluates the predicates on a 17-line request that uses
+   every construct (satisfiable), on two rejected variations (not trivially true), and re-derives the theorems' result
+   by running the model. *)
+Section CST.
+Import KV.Parser.Lex KV.Parser.StmtRT KV.Parser.FilterRT KV.Parser.FilterRT2 KV.Parser.SelectRT KV.Parser.GroupRT KV.Parser.TopRT.
+
+(* a triples statement: subject, `;`-separated predicate groups (a predicate or `a`), `,`-separated objects, optional
+   trailing `;`; any layout, every term class; the tree is the list of expanded triples *)
+Theorem C16_roundtrip_statement :
+  forall st tf rest, wf_stmt st rest = true -> stmt_follow st rest ->
+    exists ts, triples_statement (S tf) (pr_stmt st ++ rest) = Ok (ts, rest) /\ map strip_t ts = stmt_triples st.
+Proof. exact stmt_roundtrip. Qed.
+Print Assumptions C16_roundtrip_statement.
+
+(* FILTER: `||` over `&&` over atoms (`!` atom, the five RDF-star function calls, comparisons of arithmetic expressions,
+   bare arithmetic), arithmetic with `+ -` over `* /` over operands and parenthesised sums: the loops of the parser
+   build exactly the left-nested tree of the CST, i.e. the printed precedence is the parsed precedence *)
+Theorem C16_roundtrip_filter_expression :
+  forall o fuel rest, (sz_or o <= fuel)%nat -> wf_or o rest = true -> Valid rest -> after_atom rest ->
+    no_op2 38 rest -> no_op2 124 rest -> f_or fuel (pr_or o ++ rest) = Ok (tr_or o, rest).
+Proof. exact or_roundtrip. Qed.
+Print Assumptions C16_roundtrip_filter_expression.
+
+Theorem C16_roundtrip_filter :
+  forall f fuel rest, (sz_or (fl_e f) <= fuel)%nat -> wf_filter f rest = true -> Valid rest ->
+    filter_clause fuel (pr_filter f ++ rest) = Ok (tr_or (fl_e f), rest).
+Proof. exact filter_roundtrip. Qed.
+Print Assumptions C16_roundtrip_filter.
+
+(* projection: `*`, or a list of variables and aggregates SUM / MIN / MAX / AVG (`f(?v)`, `f(?v) AS ?a`, `(f(?v) AS ?a)`) *)
+Theorem C16_roundtrip_projection :
+  forall p rest, wf_proj p rest = true -> Valid rest -> projection_items (pr_proj p ++ rest) = Ok (tr_proj p, rest).
+Proof. exact proj_roundtrip. Qed.
+Print Assumptions C16_roundtrip_projection.
+
+(* FROM / FROM NAMED (IRI or prefixed name), any number, in any order *)
+Theorem C16_roundtrip_dataset :
+  forall cs fuel fr nm rest, (length cs < fuel)%nat -> wf_froms cs rest = true -> Valid rest -> kwfree [kw_from] rest = true ->
+    from_loop fuel (pr_froms cs ++ rest) fr nm = Ok (fr ++ from_plain cs, nm ++ from_named cs, rest).
+Proof. exact from_loop_rt. Qed.
+Print Assumptions C16_roundtrip_dataset.
+
+(* GROUP BY ?v+, ORDER BY with plain variables, ASC(?v), DESC(?v) and optional commas, LIMIT n (n <= usize::MAX);
+   each clause optional.  After ORDER BY the parser hands on the text with its leading layout already skipped. *)
+Theorem C16_roundtrip_modifiers :
+  forall rest, Valid rest ->
+    (forall o, wf_gbo o rest = true -> opt_clause kw_group group_by_clause [] (pr_gbo o ++ rest) = Ok (tr_gbo o, rest)) /\
+    (forall o, wf_obo o rest = true -> opt_clause kw_order order_by_clause [] (pr_obo o ++ rest) = Ok (tr_obo o, obo_rest o rest)) /\
+    (forall o, wf_lmo o rest = true ->
+       opt_clause kw_limit (fun i => do '(n, r) <- limit_clause i; Ok (Some n, r)) None (pr_lmo o ++ rest) = Ok (tr_lmo o, rest)).
+Proof.
+  intros rest Hr. repeat split; intros o H; [now apply groupby_rt|now apply orderby_rt|now apply limit_rt].
+Qed.
+Print Assumptions C16_roundtrip_modifiers.
+
+(* group graph patterns and SELECT, mutually recursive: `{` items `}` where an item is a triples statement, FILTER,
+   GRAPH (variable | IRI | prefixed name) `{...}`, or a chain `{...} UNION {...} ...` whose members are group patterns
+   or sub-selects `{ SELECT ... }`; statements / GRAPH / chains may be followed by `.`; nesting is unbounded. *)
+Theorem C16_roundtrip_group_pattern :
+  forall p fuel rest, (sz_grp p <= fuel)%nat -> wf_grp p rest = true -> Valid rest ->
+    group_pattern fuel (pr_grp p ++ rest) = Ok (tr_grp p, rest).
+Proof. exact (proj1 (proj2 (proj2 (proj2 group_rt)))). Qed.
+Print Assumptions C16_roundtrip_group_pattern.
+
+(* SELECT [DISTINCT] projection (FROM [NAMED] g)* [WHERE] { ... } [GROUP BY ...] [ORDER BY ...] [LIMIT n] *)
+Theorem C16_roundtrip_select_core :
+  forall q fuel allow rest, (sz_sel q <= fuel)%nat -> wf_sel q allow rest = true -> Valid rest ->
+    select_core fuel allow (pr_sel q ++ rest) = Ok (tr_sel q, match q with MkSel _ _ _ _ _ _ _ _ ob lm => sel_rest ob lm rest end).
+Proof. exact (proj2 (proj2 (proj2 (proj2 (proj2 group_rt))))). Qed.
+Print Assumptions C16_roundtrip_select_core.
+
+(* the whole request, through both entry points: a SELECT query followed by layout (possibly ending in an unterminated
+   comment) up to the end of input parses to exactly its source tree *)
+Theorem C16_roundtrip_query :
+  forall q e fuel, (sz_sel q <= fuel)%nat -> wf_sel q true (pr_end e) = true -> wf_end e = true ->
+    parse_sparql_query fuel (pr_sel q ++ pr_end e) = Ok (tr_sel q) /\
+    forall aliases, parse_top fuel aliases (pr_sel q ++ pr_end e) = Ok (TSelect [] (tr_sel q)).
+Proof. intros q e fuel Hf H He. split; [now apply query_roundtrip|intros; now apply top_select_roundtrip]. Qed.
+Print Assumptions C16_roundtrip_query.
+End CST.
+
+(* C16_roundtrip_partial.  NOT proved as a round trip (decided on generated trees under ~10 layouts by the tree stream of
+   checks/c16.py - implementation vs Spec tree vs this model - and by the exhaustive follower stream):
+   - in FILTER: a parenthesised BOOLEAN sub-expression `( e1 && e2 )`, and a bare arithmetic atom that starts with a
+     parenthesised operand (`FILTER((?a) * 2)`, which the parser in fact rejects);
+   - BIND and VALUES items of a group pattern;
+   - `.` after FILTER (the parser rejects it), OPTIONAL / MINUS (not in the grammar);
+   - the prologue (PREFIX declarations) in front of the request of C16_roundtrip_query (proved with an empty prologue);
+   - the six update forms (INSERT DATA, DELETE DATA, DELETE WHERE, INSERT / DELETE / DELETE-INSERT ... WHERE);
+   - token classes: exponent forms of numbers, literals with language tag / datatype, long (triple-quoted) strings,
+     quoted triples `<< >>` as terms;
+   - fuel adequacy: the theorems take `sz_* cst <= fuel`; that Run.v's `default_fuel` (8 * length + 64) dominates
+     `sz_*` of every printed CST is evaluated on the example (ExamplesRT.query_parse_computed) but not proved. *)
 
 (* ---- the lexical helpers of the lowering (utils.rs) ------------------------------------------------ *)
 (* unescape_sparql_iri and literal_lexical_value (as repaired by 484100d: `hexadecimal.get(..digits)`) return a
